@@ -283,6 +283,8 @@ func addrZ(b []byte) *big.Int { return new(big.Int).SetBytes(b) }
 var (
 	codelessAddr = common.HexToAddress("0x00000000000000000000000000000000c0dedead")
 	helperAddr   = common.HexToAddress("0x00000000000000000000000000000000c0de0003")
+	calleeA      = common.HexToAddress("0x00000000000000000000000000000000c0de000a")
+	calleeB      = common.HexToAddress("0x00000000000000000000000000000000c0de000b")
 	helperCode   = []byte{0x36, 0x60, 0x00, 0x60, 0x00, 0x37, 0x60, 0x05, 0x60, 0x00, 0xfd}
 )
 
@@ -318,6 +320,15 @@ func runEVM(code, input []byte, gas uint64) (o obs) {
 	stateUses++
 	state.SetCode(vmx.CodeAddr, code)
 	state.SetBalance(vmx.CodeAddr, baseBalance)
+	for _, ca := range []common.Address{calleeA, calleeB} {
+		if cc, ok := calleeCodes[addrZ(ca.Bytes()).String()]; ok {
+			if !state.Exist(ca) {
+				state.CreateAccount(ca)
+				state.SetNonce(ca, 1)
+			}
+			state.SetCode(ca, cc)
+		}
+	}
 	evm := vmx.NewEVM(state, state, gas)
 	defer func() {
 		if p := recover(); p != nil {
@@ -389,8 +400,25 @@ const refMemGasy = 16 << 10 // beyond this the memory fee may exhaust the gas of
 
 var refEnv [12]*big.Int
 
+// callee contracts installed for the run (address as a number -> code) and the gas magnification of the fork
+var calleeCodes = map[string][]byte{}
+var refMag = 1
+var refAvail uint64 // upper bound of the gas the top frame still has (a failed creation burns 63/64 of it)
+
+const maxCodeSize = 245760
+
 func refRun(code, input []byte, defined *[256]bool, maxSteps int) (out refOut) {
-	defer func() { out.bigmem = out.bigmem || gasyFlag; gasyFlag = false; out.memlen = refMemLen }()
+	gasyFlag = false
+	refMemLen = 0
+	out = refFrame(code, input, defined, maxSteps, 0)
+	out.bigmem = out.bigmem || gasyFlag
+	gasyFlag = false
+	out.memlen = refMemLen
+	return out
+}
+
+// one call frame of the reference machine; message calls and creations run their callee in a nested frame
+func refFrame(code, input []byte, defined *[256]bool, maxSteps int, depth int) (out refOut) {
 	var stack []*big.Int // last = top
 	var mem []byte
 	pc := 0
@@ -401,8 +429,6 @@ func refRun(code, input []byte, defined *[256]bool, maxSteps int) (out refOut) {
 	ncalls := 0
 	otherPre := false
 	defer func() { out.overlap = hazard; out.calls = ncalls; out.otherPre = otherPre }()
-	gasyFlag = false
-	refMemLen = 0
 	pop := func() *big.Int { v := stack[len(stack)-1]; stack = stack[:len(stack)-1]; return v }
 	push := func(v *big.Int) { stack = append(stack, v) }
 	// expand returns false when the region is beyond anything payable
@@ -422,7 +448,9 @@ func refRun(code, input []byte, defined *[256]bool, maxSteps int) (out refOut) {
 		for len(mem) < e {
 			mem = append(mem, 0)
 		}
-		refMemLen = len(mem)
+		if len(mem) > refMemLen {
+			refMemLen = len(mem)
+		}
 		return true, false
 	}
 	getData := func(data []byte, off, n *big.Int) []byte {
@@ -509,6 +537,61 @@ func refRun(code, input []byte, defined *[256]bool, maxSteps int) (out refOut) {
 			if n.Sign() > 0 {
 				copy(mem[int(mo.Int64()):], rd[int(so.Int64()):int(so.Int64())+int(n.Int64())])
 			}
+		case op == 0xf0 || op == 0xf5: // CREATE / CREATE2: the initcode runs in a nested frame
+			k := 3
+			if op == 0xf5 {
+				k = 4
+			}
+			if e := need(k, 1); e != "" {
+				return fail(e)
+			}
+			value, off, size := pop(), pop(), pop()
+			if op == 0xf5 {
+				pop()
+			}
+			if ok, bm := expand(off, size); !ok {
+				return refOut{kind: "fail:oog", bigmem: bm, steps: steps}
+			}
+			if depth > 3 {
+				return refOut{kind: "skip", steps: steps}
+			}
+			var initcode []byte
+			if size.Sign() > 0 {
+				initcode = append(initcode, mem[int(off.Int64()):int(off.Int64())+int(size.Int64())]...)
+			}
+			ncalls++
+			otherPre = true
+			rd = nil
+			if value.Cmp(refEnv[11]) > 0 { // more than the creator owns
+				push(big.NewInt(0))
+				break
+			}
+			if value.Sign() != 0 {
+				return refOut{kind: "skip", steps: steps}
+			}
+			sub := refFrame(initcode, nil, defined, maxSteps, depth+1)
+			switch {
+			case sub.kind == "skip":
+				return refOut{kind: "skip", steps: steps}
+			case sub.kind == "revert": // the only creation failure that leaves return data
+				rd = append([]byte{}, sub.ret...)
+				push(big.NewInt(0))
+			case sub.kind != "ok":
+				push(big.NewInt(0))
+				refAvail /= 64
+			case len(sub.ret) > maxCodeSize:
+				push(big.NewInt(0))
+				refAvail /= 64
+			case uint64(len(sub.ret))*200*uint64(refMag) > refAvail: // the code deposit can not be paid
+				push(big.NewInt(0))
+				refAvail /= 64
+			case uint64(len(sub.ret))*200*uint64(refMag)*4 > refAvail: // payable or not depends on exact gas
+				return refOut{kind: "skip", steps: steps}
+			default:
+				// success: the new address is pushed; the programs of this harness only look at it through ISZERO,
+				// so any non-zero stand-in does
+				push(big.NewInt(1))
+			}
 		case op == 0xf1 || op == 0xfa: // CALL / STATICCALL to the identity (4) and SHA-256 (2) precompiles, no value
 			k := 6
 			if op == 0xf1 {
@@ -526,7 +609,8 @@ func refRun(code, input []byte, defined *[256]bool, maxSteps int) (out refOut) {
 			inOff, inSize, retOff, retSize := pop(), pop(), pop(), pop()
 			isCodeless := addr.Cmp(addrZ(codelessAddr.Bytes())) == 0
 			isHelper := addr.Cmp(addrZ(helperAddr.Bytes())) == 0
-			if !(addr.Cmp(big.NewInt(4)) == 0 || addr.Cmp(big.NewInt(2)) == 0 || isCodeless || isHelper) || gasArg.Cmp(big.NewInt(100000)) < 0 {
+			calleeCode, isCallee := calleeCodes[addr.String()]
+			if !(addr.Cmp(big.NewInt(4)) == 0 || addr.Cmp(big.NewInt(2)) == 0 || isCodeless || isHelper || isCallee) || gasArg.Cmp(big.NewInt(100000)) < 0 || depth > 3 {
 				return refOut{kind: "skip", steps: steps}
 			}
 			if ok, bm := expand(inOff, inSize); !ok {
@@ -554,6 +638,22 @@ func refRun(code, input []byte, defined *[256]bool, maxSteps int) (out refOut) {
 				copy(out, in)
 				success = 0
 				otherPre = true
+			case isCallee: // an installed contract: its code runs in a nested frame
+				otherPre = true
+				sub := refFrame(calleeCode, in, defined, maxSteps, depth+1)
+				switch {
+				case sub.kind == "skip":
+					return refOut{kind: "skip", steps: steps}
+				case sub.kind == "ok":
+					out = sub.ret
+				case sub.kind == "revert":
+					out = sub.ret
+					success = 0
+				default: // any fault: flag 0, no output, nothing written
+					out = nil
+					success = 0
+					retSize = big.NewInt(0)
+				}
 			}
 			if retSize.Sign() > 0 {
 				n := int(retSize.Int64())
@@ -1242,6 +1342,219 @@ func genRetData(r *hx.Rng, f vmx.Fork, overlap bool) []byte {
 	return g.c
 }
 
+// programs with several code objects in ONE call tree: the parent CREATEs / CREATE2s different initcodes (each with its
+// own jumps, reverts, oversized or unpayable runtime code, invalid opcodes, unaffordable endowment) and calls two installed
+// contracts with different code; after every frame it records the success flag, RETURNDATASIZE and the return data
+func genFrames(r *hx.Rng, f vmx.Fork) ([]byte, uint64) {
+	g := &gen{r: r, mcopy: f.P022, push0: f.P022}
+	emitPush := func(v int64) { g.emit(pushWord(big.NewInt(v), nil, false)...) }
+	g.emit(pushWord(big.NewInt(1), nil, false)...)
+	g.emit(push2(0x3e0)...)
+	g.emit(0x52)
+	writeMem := func(b []byte, at int) {
+		for o := 0; o < len(b); o += 32 {
+			chunk := make([]byte, 32)
+			copy(chunk, b[o:])
+			g.emit(0x7f)
+			g.emit(chunk...)
+			g.emit(push2(at + o)...)
+			g.emit(0x52)
+		}
+	}
+	ret := func(n int) []byte { return []byte{0x62, byte(n >> 16), byte(n >> 8), byte(n), 0x60, 0x00, 0xf3} }
+	icJ1 := append([]byte{0x60, 0x05, 0x56, 0xfe, 0xfe, 0x5b}, ret(10)...)
+	icJ2 := append([]byte{0x60, 0x05, 0x56, 0x62, 0x00, 0x5b, 0x00}, ret(10)...)
+	icJ3 := []byte{0x60, 0x30, 0x56}
+	for len(icJ3) < 0x30 {
+		icJ3 = append(icJ3, 0xfe)
+	}
+	icJ3 = append(append(icJ3, 0x5b), ret(10)...)
+	revN := 1 + r.Intn(32)
+	icRev := append(append([]byte{0x7f}, r.Bytes(32)...), 0x60, 0x00, 0x52, 0x60, byte(revN), 0x60, 0x00, 0xfd)
+	type ic struct {
+		code  []byte
+		rdLen int
+	}
+	pool := []ic{{icJ1, 0}, {icJ2, 0}, {icJ3, 0}, {icRev, revN}, {ret(maxCodeSize + 1), 0}, {ret(60000), 0}, {[]byte{0xfe}, 0},
+		{ret(r.Intn(40)), 0}, {nil, 0}, {ret(maxCodeSize), 0}}
+	calleeValid := []byte{0x60, 0x04, 0x56, 0xfe, 0x5b, 0x60, 0x2a, 0x60, 0x00, 0x52, 0x60, 0x20, 0x60, 0x00, 0xf3}
+	calleeBad := []byte{0x60, 0x04, 0x56, 0x61, 0x5b, 0x5b, 0x60, 0x2a, 0x60, 0x00, 0x52, 0x60, 0x20, 0x60, 0x00, 0xf3}
+	calleeRev := []byte{0x60, 0x07, 0x60, 0x00, 0x53, 0x60, 0x03, 0x60, 0x00, 0xfd}
+	calleeCodes = map[string][]byte{}
+	cv := [][]byte{calleeValid, calleeBad, calleeRev}
+	calleeCodes[addrZ(calleeA.Bytes()).String()] = cv[r.Intn(3)]
+	calleeCodes[addrZ(calleeB.Bytes()).String()] = cv[r.Intn(3)]
+	nsteps := 2 + r.Intn(3)
+	runGas := uint64(1000000000000000)
+	depositProbe := r.Intn(8) == 0 // a single creation whose code deposit (60000 bytes) exceeds the whole gas of the run
+	if depositProbe {
+		nsteps, runGas = 1, 3000000
+	}
+	for st := 0; st < nsteps; st++ {
+		slot := 0x200 + st*0x60
+		if r.Intn(4) == 0 && !depositProbe { // message call to an installed contract
+			emitPush(32)
+			g.emit(push2(slot + 64)...)
+			emitPush(0)
+			emitPush(0)
+			op := byte(0xfa)
+			if r.Bool() {
+				op = 0xf1
+				emitPush(0)
+			}
+			g.emit(pushWord(addrZ([]common.Address{calleeA, calleeB}[r.Intn(2)].Bytes()), nil, false)...)
+			emitPush(500000)
+			g.emit(op)
+		} else {
+			var c ic
+			switch r.Intn(3) { // jumps in two thirds of the creations, so that consecutive initcodes with different layouts meet
+			case 0:
+				c = pool[r.Intn(len(pool))]
+			default:
+				c = pool[r.Intn(3)]
+			}
+			if depositProbe {
+				c = pool[5]
+			}
+			writeMem(c.code, 0)
+			value := big.NewInt(0)
+			if r.Intn(12) == 0 {
+				value = pow2(100) // more than the creator owns
+			}
+			if r.Intn(3) == 0 {
+				g.emit(pushWord(new(big.Int).SetBytes(r.Bytes(4)), nil, false)...)
+				emitPush(int64(len(c.code)))
+				emitPush(0)
+				g.emit(pushWord(value, nil, false)...)
+				g.emit(0xf5)
+			} else {
+				emitPush(int64(len(c.code)))
+				emitPush(0)
+				g.emit(pushWord(value, nil, false)...)
+				g.emit(0xf0)
+			}
+			g.emit(0x15, 0x15)
+			n := c.rdLen
+			if value.Sign() != 0 {
+				n = 0
+			}
+			g.emit(push2(slot)...)
+			g.emit(0x52)
+			g.emit(0x3d)
+			g.emit(push2(slot + 32)...)
+			g.emit(0x52)
+			if r.Intn(10) == 0 {
+				n++ // one byte beyond the buffer: the copy must fault
+			}
+			emitPush(int64(n))
+			emitPush(0)
+			g.emit(push2(slot + 64)...)
+			g.emit(0x3e)
+			continue
+		}
+		g.emit(push2(slot)...)
+		g.emit(0x52)
+		g.emit(0x3d)
+		g.emit(push2(slot + 32)...)
+		g.emit(0x52)
+	}
+	g.h = 0
+	g.epilogue(false)
+	return g.c, runGas
+}
+
+// rdProbe: one callee frame with a known kind of ending (0 call returned, 1 call reverted, 2 call faulted, 3 creation
+// succeeded, 4 creation reverted, 5 creation failed otherwise), after which the whole return-data buffer is returned
+func rdProbe(r *hx.Rng) (code []byte, gas uint64, kind int, out []byte) {
+	var c []byte
+	push := func(v *big.Int) { c = append(c, pushWord(v, nil, false)...) }
+	writeMem := func(b []byte) {
+		for o := 0; o < len(b); o += 32 {
+			chunk := make([]byte, 32)
+			copy(chunk, b[o:])
+			c = append(c, 0x7f)
+			c = append(c, chunk...)
+			c = append(c, push2(o)...)
+			c = append(c, 0x52)
+		}
+	}
+	ret := func(n int) []byte { return []byte{0x62, byte(n >> 16), byte(n >> 8), byte(n), 0x60, 0x00, 0xf3} }
+	gas = 1000000000000000
+	calleeCodes = map[string][]byte{}
+	kind = r.Intn(6)
+	value := big.NewInt(0)
+	switch kind {
+	case 0, 1, 2:
+		cc := [][]byte{
+			{0x60, 0x04, 0x56, 0xfe, 0x5b, 0x60, 0x2a, 0x60, 0x00, 0x52, 0x60, 0x20, 0x60, 0x00, 0xf3},
+			{0x60, 0x07, 0x60, 0x00, 0x53, 0x60, 0x03, 0x60, 0x00, 0xfd},
+			{0x60, 0x04, 0x56, 0x61, 0x5b, 0x5b, 0x60, 0x2a, 0x60, 0x00, 0x52, 0x60, 0x20, 0x60, 0x00, 0xf3}}[kind]
+		calleeCodes[addrZ(calleeA.Bytes()).String()] = cc
+		switch kind {
+		case 0:
+			out = make([]byte, 32)
+			out[31] = 0x2a
+		case 1:
+			out = []byte{7, 0, 0}
+		}
+		push(big.NewInt(0))
+		push(big.NewInt(0))
+		push(big.NewInt(0))
+		push(big.NewInt(0))
+		op := byte(0xfa)
+		if r.Bool() {
+			op = 0xf1
+			push(big.NewInt(0))
+		}
+		push(addrZ(calleeA.Bytes()))
+		push(big.NewInt(500000))
+		c = append(c, op, 0x50)
+	default:
+		var ic []byte
+		switch kind {
+		case 3:
+			ic = ret(r.Intn(64))
+		case 4:
+			n := 1 + r.Intn(32)
+			w := r.Bytes(32)
+			ic = append(append([]byte{0x7f}, w...), 0x60, 0x00, 0x52, 0x60, byte(n), 0x60, 0x00, 0xfd)
+			out = w[:n]
+		case 5:
+			switch r.Intn(5) {
+			case 0:
+				ic = append([]byte{0x60, 0x05, 0x56, 0x62, 0x00, 0x5b, 0x00}, ret(10)...) // jump into push data
+			case 1:
+				ic = []byte{0xfe}
+			case 2:
+				ic = ret(maxCodeSize + 1)
+			case 3:
+				ic = ret(60000) // code deposit beyond the gas of the whole run
+				gas = 3000000
+			case 4:
+				ic = ret(5)
+				value = pow2(100)
+			}
+		}
+		writeMem(ic)
+		if r.Intn(3) == 0 {
+			push(new(big.Int).SetBytes(r.Bytes(4)))
+			push(big.NewInt(int64(len(ic))))
+			push(big.NewInt(0))
+			push(value)
+			c = append(c, 0xf5)
+		} else {
+			push(big.NewInt(int64(len(ic))))
+			push(big.NewInt(0))
+			push(value)
+			c = append(c, 0xf0)
+		}
+		c = append(c, 0x50)
+	}
+	// RETURNDATACOPY(0x380, 0, RETURNDATASIZE); RETURN(0x380, RETURNDATASIZE)
+	c = append(c, 0x3d, 0x60, 0x00, 0x61, 0x03, 0x80, 0x3e, 0x3d, 0x61, 0x03, 0x80, 0xf3)
+	return c, gas, kind, out
+}
+
 const dumpBase = 0x400
 
 // epilogue: memory size and every stack slot are written behind dumpBase and the whole memory is returned
@@ -1454,6 +1767,17 @@ func stackProbe(op byte, h int, r *hx.Rng) []byte {
 		c = append(c, 0x50)
 	}
 	return append(c, 0x60, 0xaa, 0x60, 0x00, 0x52, 0x60, 0x20, 0x60, 0x00, 0xf3)
+}
+
+var hookPanicNoted bool
+
+func safeValidJumpdest(code []byte, d *uint256.Int) (ok bool, pan string) {
+	defer func() {
+		if p := recover(); p != nil {
+			pan = fmt.Sprint(p)
+		}
+	}()
+	return vm.VerifVMValidJumpdest(code, d), ""
 }
 
 func zs(v *big.Int) string { return "(" + v.String() + ")%Z" }
@@ -1741,6 +2065,11 @@ func main() {
 		vmx.SetFork(f)
 		ob := runEVM(code, input, gas)
 		refEnv = envWords(gas)
+		refAvail = gas
+		refMag = 1
+		if f.P026 {
+			refMag = 30
+		}
 		in := map[string]interface{}{"fork": f.String(), "code": hex.EncodeToString(code), "input": hex.EncodeToString(input), "gas": gas, "kind": kind, "value": curValue.String(),
 			"observed": ob.class, "ret": hex.EncodeToString(ob.ret), "gas_left": ob.left}
 		id := fmt.Sprintf("prog %d %x %x %d %s", f.Index(), code, input, gas, curValue.String())
@@ -1779,6 +2108,9 @@ func main() {
 					// the caller's memory window, opCall writes the output into it, and only then is the buffer copied
 					key = "C10/returndata:identity-in-out-overlap"
 					what = "return data after a CALL to the identity precompile with overlapping input/output areas is not the precompile's output: " + got + " vs " + want
+				} else if kind == "frames" || kind == "rdprobe" {
+					key = "C10/frames:" + kind
+					what = "success flags / return data / memory after creations and calls in one call tree differ from the reference (per-code jump analysis, return data only after a call or a reverted creation): " + got + " vs " + want
 				} else if ref.calls > 0 {
 					key = "C10/returndata:" + kind
 					what = "return data / memory after a precompile call differ from the reference (immutable return-data snapshot): " + got + " vs " + want
@@ -1815,7 +2147,13 @@ func main() {
 		kind := "structured"
 		sha3Emitted = false
 		hasCall := false
-		switch k := rng.Intn(12); {
+		framesGas := uint64(0)
+		switch k := rng.Intn(13); {
+		case k == 12:
+			code, framesGas = genFrames(rng, f)
+			kind = "frames"
+			hasCall = true
+			genOtherPre = true
 		case k >= 10:
 			ov := rng.Intn(5) == 0
 			code = genRetData(rng, f, ov)
@@ -1831,6 +2169,9 @@ func main() {
 			kind = "soup"
 		}
 		gas := uint64(10000000)
+		if framesGas != 0 {
+			gas = framesGas
+		}
 		if kind == "soup" && rng.Intn(2) == 0 {
 			gas = []uint64{0, 1, 2, 5, 20, 100, 1000, 100000}[rng.Intn(8)]
 		}
@@ -1859,6 +2200,25 @@ func main() {
 			}
 		}
 	}
+
+	// return data after exactly one callee frame of every kind of ending (model: rd_after)
+	curValue = new(big.Int)
+	for i := 0; i < a.N/16+6; i++ {
+		f := pickFork()
+		code, gas, kind, out := rdProbe(rng)
+		genOtherPre = true
+		ob := progCase(f, code, nil, gas, "rdprobe", false)
+		js := map[string]interface{}{"kind": "rdprobe", "ending": kind, "code": hex.EncodeToString(code), "fork": f.String(), "gas": gas,
+			"expected": hex.EncodeToString(out), "observed": ob.class, "ret_len": len(ob.ret)}
+		if ob.class != "ok" || hex.EncodeToString(ob.ret) != hex.EncodeToString(out) {
+			js["ret_head"] = hex.EncodeToString(ob.ret[:min(len(ob.ret), 64)])
+			res.Violate(fmt.Sprintf("C10/returndata:after-frame-%d", kind), fmt.Sprintf("return data after a callee frame of ending %d (0 call ok, 1 call revert, 2 call fault, 3 create ok, 4 create revert, 5 create failure): %d bytes, %s; expected %d bytes", kind, len(ob.ret), ob.class, len(out)), js)
+		}
+		if ob.class == "ok" && len(ob.ret) < 2000 {
+			addCase(f, fmt.Sprintf("CRd %d %s %s", kind, hx.CoqHex(out), hx.CoqHex(ob.ret)), js)
+		}
+	}
+	calleeCodes = map[string][]byte{}
 
 	// =========================================================================================
 	// stack limits: for every instruction of the reference set in every live table, the stack one item short of and
@@ -1957,7 +2317,16 @@ func main() {
 		}
 		probe := func(d *big.Int) {
 			u, _ := uint256.FromBig(d)
-			got := vm.VerifVMValidJumpdest(code, u)
+			got, hookPanic := safeValidJumpdest(code, u)
+			if hookPanic != "" {
+				// the export builds a bare Contract{Code}; a panic here says the analysis path no longer works without
+				// the call-tree context. The executed families (frames, jump-exec) carry the failing inputs.
+				if !hookPanicNoted {
+					res.Note("validJumpdest panicked on a bare contract through the verif export: " + hookPanic)
+					hookPanicNoted = true
+				}
+				return
+			}
 			want := d.IsUint64() && d.Uint64() < uint64(len(code)) && code[d.Uint64()] == 0x5b && bnd[d.Uint64()]
 			if !d.IsUint64() {
 				want = false
